@@ -30,6 +30,8 @@ import (
 	"github.com/markusressel/fan2go/internal/fans"
 	"github.com/markusressel/fan2go/internal/persistence"
 	"github.com/markusressel/fan2go/internal/util"
+	"github.com/prometheus/client_golang/prometheus"
+	"github.com/spf13/viper"
 	bolt "go.etcd.io/bbolt"
 )
 
@@ -68,6 +70,12 @@ type startupIn struct {
 	// database file (the way the daemon starts its controllers); HoldMs: a second user of the database file
 	// (another fan2go process such as `fan2go fan curve`) has it open for these many ms at a time during start-up
 	Concurrent bool  `json:"concurrent"`
+	// Cli: the whole history runs the way a user drives fan2go: a fan2go.yaml in one directory, the working directory
+	// in another; `fan init` / `fan reset` are the REAL cobra commands of cmd/fan, a start does what the daemon does
+	// (load the file through viper, fans.NewFan from the loaded entry, persistence.NewPersistence(loaded dbPath), Run).
+	// RelDb: dbPath is written as a relative path ("fan2go.db"), otherwise absolute. File fans only.
+	Cli   bool `json:"cli"`
+	RelDb bool `json:"rel_db"`
 	HoldMs     []int `json:"hold_ms"`
 	Fans []startupFanSpec `json:"fans"`
 	Db   []startupDbEntry `json:"db"`
@@ -518,8 +526,12 @@ type startupProc struct {
 }
 
 func (e *startupEnv) launch(d *startupDev, updateRate time.Duration) *startupProc {
-	fan := d.newFan()
-	pers := &startupPersistence{inner: persistence.NewPersistence(e.dbPath), env: e, dev: d}
+	return e.launchWith(d, d.newFan(), persistence.NewPersistence(e.dbPath), updateRate)
+}
+
+// launchWith: the fan object and the persistence are the caller's (e.g. built from a loaded configuration file)
+func (e *startupEnv) launchWith(d *startupDev, fan fans.Fan, inner persistence.Persistence, updateRate time.Duration) *startupProc {
+	pers := &startupPersistence{inner: inner, env: e, dev: d}
 	curve := &startupCurve{first: make(chan struct{}), fail: d.spec.Fault == "ctl"}
 	curve.hook = func() {
 		e.flushCmdLog(d)
@@ -542,6 +554,29 @@ func (e *startupEnv) launch(d *startupDev, updateRate time.Duration) *startupPro
 		p.done <- err
 	}()
 	return p
+}
+
+// runInitDirect does for one fan what cmd/fan/init.go does (delete both entries, RunInitializationSequence on a
+// fresh controller); ready() is called right before the sequence (start barrier of simultaneous runs)
+func (e *startupEnv) runInitDirect(d *startupDev, ready func()) error {
+	fan := d.newFan()
+	pers := &startupPersistence{inner: persistence.NewPersistence(e.dbPath), env: e, dev: d}
+	ctl := controller.VerifNewController(pers, fan, &startupCurve{first: make(chan struct{})}, control_loop.NewDirectControlLoop(nil), 2*time.Millisecond)
+	err := pers.inner.DeleteFanPwmData(fan)
+	if err == nil {
+		err = pers.inner.DeleteFanPwmMap(fan.GetId())
+	}
+	ready()
+	if err == nil {
+		if pm := catch(func() { err = ctl.RunInitializationSequence() }); pm != "" {
+			err = errors.New("panic: " + pm)
+		}
+	}
+	e.flushCmdLog(d)
+	e.mu.Lock()
+	e.log(d.spec.Id, "RET", 0, "")
+	e.mu.Unlock()
+	return err
 }
 
 // waitFirstCycle blocks until the first regulation cycle or the return of Run; reports (regulating, err)
@@ -686,6 +721,9 @@ func startupRun(ctx *Ctx, in startupIn) startupObs {
 	defer os.RemoveAll(dir)
 	env := startupNewEnv(dir, true, 1)
 	defer env.close()
+	if in.Cli {
+		return startupRunCli(env, in)
+	}
 	startupSetGlobals(in.Par)
 	configuration.CurrentConfig.DbPath = env.dbPath // as in the daemon: the database the controllers use is the configured one
 	for _, f := range in.Fans {
@@ -801,6 +839,202 @@ func startupCobraReset(env *startupEnv, d *startupDev) {
 	if err := fancmd.Command.Execute(); err != nil {
 		panic("cobra fan reset: " + err.Error())
 	}
+}
+
+// ---- the history as a user drives it: configuration file, working directory elsewhere, real cobra commands ----
+func startupCliLoad(cfg string) {
+	viper.Reset()
+	configuration.InitConfig(cfg)
+	if used := configuration.DetectAndReadConfigFile(); used != cfg {
+		panic("startup-cli: unexpected configuration file " + used)
+	}
+	configuration.LoadConfig()
+	if err := configuration.Validate(cfg); err != nil {
+		panic("startup-cli: generated configuration does not validate: " + err.Error())
+	}
+}
+
+func startupRunCli(env *startupEnv, in startupIn) startupObs {
+	etc := filepath.Join(env.dir, "etc")
+	work := filepath.Join(env.dir, "work")
+	for _, dir := range []string{etc, work, filepath.Join(env.dir, "var")} {
+		if err := os.MkdirAll(dir, 0755); err != nil {
+			panic(err)
+		}
+	}
+	dbSetting := filepath.Join(env.dir, "var", "fan2go.db")
+	env.dbPath = dbSetting
+	if in.RelDb {
+		dbSetting = "fan2go.db"
+		env.dbPath = filepath.Join(work, "fan2go.db") // what a relative path means to every part of the unchanged program: relative to the working directory
+	}
+	for _, f := range in.Fans {
+		if f.Kind != "file" {
+			panic("startup-cli: file fans only")
+		}
+		env.addDevice(f)
+	}
+	old, err := os.Getwd()
+	if err != nil {
+		panic(err)
+	}
+	if err := os.Chdir(work); err != nil {
+		panic(err)
+	}
+	defer os.Chdir(old)
+	for _, ent := range in.Db {
+		if d, ok := env.devs[ent.Id]; ok {
+			env.preload(d, ent)
+		}
+	}
+	temp := filepath.Join(env.dir, "temp_input")
+	_ = os.WriteFile(temp, []byte("40000"), 0644)
+	yaml := "dbPath: " + dbSetting + "\n" +
+		"runFanInitializationInParallel: " + cBool(in.Par) + "\n" +
+		"maxRpmDiffForSettledFan: 20.0\nfanResponseDelay: 2\ntempSensorPollingRate: 200ms\ntempRollingWindowSize: 10\n" +
+		"rpmPollingRate: 1h\nrpmRollingWindowSize: 10\ncontrollerAdjustmentTickRate: 2ms\n" +
+		"sensors:\n  - id: s1\n    file:\n      path: " + temp + "\n" +
+		"curves:\n  - id: startup_curve\n    linear:\n      sensor: s1\n      min: 40\n      max: 80\n" +
+		"fans:\n"
+	for _, f := range in.Fans {
+		d := env.devs[f.Id]
+		yaml += "  - id: fan" + strconv.Itoa(f.Id) + "\n    curve: startup_curve\n    file:\n      path: " + d.pwmPath + "\n"
+		if d.rpmPath != "" {
+			yaml += "      rpmPath: " + d.rpmPath + "\n"
+		}
+	}
+	cfg := filepath.Join(etc, "fan2go.yaml")
+	if err := os.WriteFile(cfg, []byte(yaml), 0644); err != nil {
+		panic(err)
+	}
+	defer func() { persistence.VerifWrapHook = nil }()
+	running := map[int]*startupProc{}
+	stop := func(id int) {
+		if p, ok := running[id]; ok {
+			p.stop()
+			delete(running, id)
+		}
+	}
+	cobra := func(d *startupDev, op string) error {
+		persistence.VerifWrapHook = func(p persistence.Persistence) persistence.Persistence {
+			return &startupPersistence{inner: p, env: env, dev: d}
+		}
+		viper.Reset()
+		configuration.InitConfig(cfg)
+		// every CLI invocation is a process of its own: its metric collectors are registered once per process
+		prometheus.DefaultRegisterer = prometheus.NewRegistry()
+		fancmd.Command.SetArgs([]string{op, "--id", "fan" + strconv.Itoa(d.spec.Id)})
+		var err error
+		if pm := catch(func() { err = fancmd.Command.Execute() }); pm != "" {
+			err = errors.New("panic: " + pm)
+		}
+		persistence.VerifWrapHook = nil
+		return err
+	}
+	var obs startupObs
+	for _, c := range in.Cmds {
+		d, ok := env.devs[c.Id]
+		if !ok {
+			obs.Steps = append(obs.Steps, startupStepObs{Acts: []string{}})
+			continue
+		}
+		stop(c.Id)
+		env.mu.Lock()
+		from := len(env.events)
+		env.mu.Unlock()
+		step := startupStepObs{Acts: []string{}}
+		switch c.Op {
+		case "start":
+			// what internal.RunDaemon does for this fan
+			startupCliLoad(cfg)
+			var fan fans.Fan
+			for _, fc := range configuration.CurrentConfig.Fans {
+				if fc.ID == "fan"+strconv.Itoa(c.Id) {
+					f, err := fans.NewFan(fc)
+					if err != nil {
+						panic(err)
+					}
+					fan = f
+				}
+			}
+			if fan == nil {
+				panic("startup-cli: fan not in the loaded configuration")
+			}
+			p := env.launchWith(d, fan, persistence.NewPersistence(configuration.CurrentConfig.DbPath), 2*time.Millisecond)
+			reg, err := p.waitFirstCycle(60 * time.Second)
+			step.Acts, step.Writes = env.classify(c.Id, from)
+			if !reg {
+				<-p.done
+				if err != nil {
+					step.Acts = append(step.Acts, "Err")
+				}
+			} else {
+				running[c.Id] = p
+			}
+			if pm := p.ctl.VerifPwmMap(); pm != nil {
+				step.Final = startupMapToPairs(pm)
+				step.HasFin = true
+			}
+		case "stop":
+		case "reset":
+			if err := cobra(d, "reset"); err != nil {
+				panic("cobra fan reset: " + err.Error())
+			}
+		case "init":
+			err := cobra(d, "init")
+			step.Acts, step.Writes = env.classify(c.Id, from)
+			if err != nil {
+				step.Acts = append(step.Acts, "Err")
+				if os.Getenv("STARTUP_TIMING") != "" {
+					fmt.Fprintln(os.Stderr, "cobra fan init:", err)
+				}
+			}
+		}
+		// the stored entries as the CLI sees them (dbPath exactly as configured, from the working directory)
+		startupCliLoad(cfg)
+		p := persistence.NewPersistence(configuration.CurrentConfig.DbPath)
+		fan := d.newFan()
+		_, err1 := p.LoadFanPwmData(fan)
+		m, err2 := p.LoadFanPwmMap(fan.GetId())
+		step.HasData, step.HasMap = err1 == nil, err2 == nil && m != nil
+		obs.Steps = append(obs.Steps, step)
+	}
+	for id := range running {
+		stop(id)
+	}
+	return obs
+}
+
+func startupGenCli(rng *Rng, rel bool) (startupIn, []string) {
+	in := startupIn{Par: rng.Bool(), Cli: true, RelDb: rel}
+	tags := []string{"cli", "kind=file"}
+	if rel {
+		tags = append(tags, "dbpath-relative")
+	} else {
+		tags = append(tags, "dbpath-absolute")
+	}
+	nf := rng.Range(1, 2)
+	for id := 1; id <= nf; id++ {
+		f := startupFanSpec{Id: id, Kind: "file", PwmReadable: true, Rpm: rng.Chance(2, 3)}
+		f.Dev, _ = startupGenDev(rng)
+		in.Fans = append(in.Fans, f)
+	}
+	id := rng.Range(1, nf)
+	// the histories the property names: init then start; start, restart; reset then start
+	switch rng.Intn(3) {
+	case 0:
+		in.Cmds = []startupCmd{{"init", id}, {"start", id}, {"stop", id}, {"start", id}, {"reset", id}, {"start", id}}
+	case 1:
+		in.Cmds = []startupCmd{{"start", id}, {"stop", id}, {"start", id}, {"stop", id}, {"init", id}, {"start", id}}
+	default:
+		in.Cmds = []startupCmd{{"start", id}, {"stop", id}, {"reset", id}, {"start", id}, {"stop", id}, {"init", id}, {"start", id}, {"stop", id}, {"start", id}}
+	}
+	if nf == 2 {
+		other := 3 - id
+		in.Cmds = append([]startupCmd{{"start", other}}, in.Cmds...)
+		in.Cmds = append(in.Cmds, startupCmd{"stop", other}, startupCmd{"start", other})
+	}
+	return in, tags
 }
 
 // startupRunConcurrent launches the controllers of all commands (starts of distinct fans) together on the one
@@ -1264,6 +1498,16 @@ func init() {
 		}
 		for i := 0; i < nc; i++ {
 			in, tags := startupGenConcurrent(rng, 2+i%5, i%2 == 1)
+			emit(in, tags...)
+		}
+		// (a'') histories driven like a user does: config file in one directory, working directory in another, dbPath
+		// relative / absolute, `fan init` and `fan reset` through the real cobra commands
+		ncli := ctx.Param("ncli", 6)
+		if !ctx.Quick() {
+			ncli = ctx.Param("ncli", 40)
+		}
+		for i := 0; i < ncli; i++ {
+			in, tags := startupGenCli(rng, i%2 == 0)
 			emit(in, tags...)
 		}
 		// (b) random fleets and command sequences
